@@ -84,13 +84,17 @@ impl WedgeExec {
             "valid" => rig.obs.push(ObsBehaviour::Serve(self.doc.clone())),
             "validesc" => {
                 // a valid document whose strings need escaping in a label (line break, quote, backslash, tab, non-ASCII)
-                let mut v: serde_json::Value = serde_json::from_slice(&self.doc).unwrap_or(serde_json::Value::Null);
-                if let Some(p) = v.get_mut("program") {
-                    p["version"] = serde_json::Value::String("1.0\n\"beta\"".into());
-                    p["build_commit"] = serde_json::Value::String("a\\b\tc\u{e9}".into());
-                    p["build_commit_date"] = serde_json::Value::String("2024-01-01\n".into());
-                }
-                rig.obs.push(ObsBehaviour::Serve(serde_json::to_vec(&v).unwrap_or_else(|_| self.doc.clone())));
+                // (through the typed document: a generic JSON value would not keep the 128-bit numbers)
+                let doc = match serde_json::from_slice::<ObservableState>(&self.doc) {
+                    Ok(mut st) => {
+                        st.program.version = "1.0\n\"beta\"".into();
+                        st.program.build_commit = "a\\b\tc\u{e9}".into();
+                        st.program.build_commit_date = "2024-01-01\n".into();
+                        serde_json::to_vec(&st).unwrap_or_else(|_| self.doc.clone())
+                    }
+                    Err(_) => self.doc.clone(),
+                };
+                rig.obs.push(ObsBehaviour::Serve(doc));
             }
             "invalid" => rig.obs.push(ObsBehaviour::Serve(b"{\"program\": 12, \"instance\": []}".to_vec())),
             "truncated" => rig.obs.push(ObsBehaviour::Serve(self.doc[..self.doc.len() / 2].to_vec())),
